@@ -334,7 +334,8 @@ H_ORBITS = {"A": (2.2091404, 0.8502196, 11.94524, 334.75006, 186.23352),      # 
             "C": (1.0, 1.0, 90.0, 120.0, 270.0),                              # parabola
             "D": (3.363943, 0.1, 0.0, 0.0, 0.0)}
 H_EPOCHS = {"t1": (1990, 10, 6.0), "t2": (1998, 8, 5.0), "t3": (2011, 3, 1.5)}
-H_OPS = ["set:A", "set:B", "set:C", "set:D", "ep:t1", "ep:t2", "ep:t3", "new_body", "new_epoch"]
+H_OPS = ["set:A", "set:B", "set:C", "set:D", "ep:t1", "ep:t2", "ep:t3", "new_body", "new_epoch", "other:B", "other:D",
+         "other_set:C"]
 
 
 def _h_direct(o, t):
@@ -365,6 +366,7 @@ def check_minor_history(hist):
     body = mk(cur_o)
     ep = Epoch(*H_EPOCHS[cur_t])
     body.geocentric_position(ep)
+    others = []                 # other Minor objects kept alive next to the one under test
     for k, op in enumerate(hist):
         kind, _, arg = op.partition(":")
         try:
@@ -377,6 +379,15 @@ def check_minor_history(hist):
                 cur_t = arg
             elif kind == "new_body":
                 body = mk(cur_o)
+            elif kind == "other":
+                # a second body is created (and queried) while the first stays in use
+                others.append(mk(arg))
+                others[-1].geocentric_position(Epoch(*H_EPOCHS["t2"]))
+            elif kind == "other_set":
+                if not others:
+                    others.append(mk("A"))
+                q_, e_, i_, n_, w_ = H_ORBITS[arg]
+                others[-1].set(q_, e_, Angle(i_), Angle(n_), Angle(w_), T)
             elif kind == "new_epoch":
                 ep = Epoch(*H_EPOCHS[cur_t])
             ra, dec, el = body.geocentric_position(ep)
@@ -477,6 +488,77 @@ def run_planet_history(block, ctx):
         ctx.outcome((hist[-1], len(res)))
         ctx.obs(hist, len(res))
     ctx.sample({"history": [list(h) for h in block[0]]})
+
+
+CLOSE_SEQ_STEP = 2.0 / 86400.0      # two seconds
+
+
+def check_close_sequence(case):
+    """A body 0.002 / 0.01 R from the Earth is queried at eight instants two seconds apart (forwards and
+    backwards): at that distance the Earth's motion in two seconds (60 km) is 0.01 degree, so an Earth
+    or Sun vector remembered from the previous instant shows at once."""
+    out = []
+    for direction in (1.0, -1.0):
+        for k in range(8):
+            c = dict(case)
+            c["dt"] = case["dt"] + direction * k * CLOSE_SEQ_STEP
+            out += [(s_, "call %d of a sequence 2 s apart: %s" % (k, m), d) for s_, m, d in check_minor(c)]
+            if out:
+                return out
+    return out
+
+
+def run_close_seq(block, ctx):
+    for case in block:
+        ctx.evals += 16
+        ctx.traces += 2
+        ctx.nt_count += 1
+        res = check_close_sequence(case)
+        for site, msg, dev in res:
+            ctx.viol(dict(case, i=case["orient"][0]), msg, dev=dev, site="sequence_" + site)
+        ctx.outcome((case["e"], case["gap"], len(res)))
+    ctx.sample(block[0])
+
+
+# -- thorough: dense sweep of the hardest elliptic band (just below the near-parabolic switch) ---------------
+
+BAND_E = [0.9720 + 0.0004 * k for k in range(20)] + [0.90, 0.95, 0.9799999]
+BAND_M_STEP = 2e-4      # degrees of mean anomaly
+BAND_M_MAX = 25.0
+
+
+def run_kepler_band(spec, ctx):
+    """spec = (e, m_lo, m_hi): every mean anomaly of the grid in [m_lo, m_hi) for a body with q = 1 AU;
+    any iteration scheme for Kepler's equation is most fragile at high eccentricity a few degrees from
+    perihelion, and a failure there need not sit on any round value."""
+    ecc, m_lo, m_hi = spec
+    a = 1.0 / (1.0 - ecc)
+    n = 0.9856076686 / (a * math.sqrt(a))
+    k0, k1 = int(round(m_lo / BAND_M_STEP)), int(round(m_hi / BAND_M_STEP))
+    nbad = 0
+    for k in range(k0, k1):
+        dt = (k * BAND_M_STEP) / n
+        case = {"q": 1.0, "e": ecc, "orient": [11.94524, 334.75006, 186.23352], "dt": dt}
+        ctx.evals += 1
+        res = check_minor(case)
+        for site, msg, dev in res:
+            nbad += 1
+            ctx.viol({"q": 1.0, "e": ecc, "i": 11.94524, "node": 334.75006, "w": 186.23352, "dt": dt,
+                      "orient": case["orient"]}, msg, dev=dev, site=site)
+    ctx.nt_count += k1 - k0
+    ctx.outcome((ecc, nbad))
+    ctx.obs(spec, nbad)
+    ctx.sample({"e": ecc, "mean_anomaly_from": m_lo, "to": m_hi, "step": BAND_M_STEP})
+
+
+def band_shards():
+    out = []
+    for ecc in BAND_E:
+        m = -BAND_M_MAX
+        while m < BAND_M_MAX - 1e-9:
+            out.append((ecc, m, m + 2.5))
+            m += 2.5
+    return out
 
 
 def run_pluto_range(block, ctx):
@@ -586,11 +668,15 @@ def clauses(tier):
                lambda c: [m for _, m, _ in check_minor(c)], floor=200),
         Clause("minor_far_epochs", chunks(far_cases(), 8), run_minor,
                lambda c: [m for _, m, _ in check_minor(c)], floor=100),
+        Clause("minor_close_sequence", chunks([c for c in close_cases() if c["gap"] <= 0.01 and c["dt"] in (0.0, 3.0)], 16),
+               run_close_seq, lambda c: [m for _, m, _ in check_close_sequence(c)], floor=50, shape="H"),
         Clause("minor_history", chunks(hists, 16), run_history,
                lambda c: [m for _, m, _ in check_minor_history(tuple(c["history"]))], floor=500, shape="H"),
         Clause("planet_history", chunks(phists, 32), run_planet_history,
                lambda c: [m for _, m, _ in check_planet_history(tuple(tuple(h) for h in c["history"]))],
                floor=500, shape="H"),
+    ] + ([Clause("minor_kepler_band", band_shards(), run_kepler_band, lambda c: [m for _, m, _ in check_minor(c)],
+                 floor=100000)] if tier == "thorough" else []) + [
         Clause("minor_continuity", chunks(cont, 4), run_minor_cont,
                lambda c: [m for _, m, _ in check_minor_continuity(c)], floor=10),
     ]
